@@ -1,0 +1,60 @@
+//go:build verif
+
+package proto
+
+// Hand-written wire contracts for the parts of the Query packet that are not flat field lists
+// (C17, C02): one setting / parameter.  Layout from src/Core/BaseSettings.h: key string, flags
+// uvarint (important 0x01, custom 0x02, obsolete 0x04), value string; an empty key ends the list.
+// (comment-only; read by /verif/govc)
+
+//@ spec func settingFlags(s Val) Int = ite(s.Important, 1, 0) + ite(s.Custom, 2, 0) + ite(s.Obsolete, 4, 0)
+
+//@ contract (s Setting) Encode(b) props(C17,C02)
+//@   requires b != nil
+//@   modifies b.Buf
+//@   let p0 = offset(b.Buf) + old(len(b.Buf))
+//@   let p1 = p0 + uvsize(len(s.Key)) + len(s.Key)
+//@   let p2 = p1 + uvsize(settingFlags(s))
+//@   ensures appendOnly(b, uvsize(len(s.Key)) + len(s.Key) + uvsize(settingFlags(s)) + uvsize(len(s.Value)) + len(s.Value)) {length}
+//@   ensures uvStable(b) {varint-images-preserved}
+//@   ensures uvAt(arrayof(b.Buf), p0, len(s.Key)) && forall j in 0..len(s.Key) :: arrayof(b.Buf)[p0 + uvsize(len(s.Key)) + j] == s.Key[j] {Key}
+//@   ensures uvAt(arrayof(b.Buf), p1, settingFlags(s)) {flags-are-distinct-bits}
+//@   ensures uvAt(arrayof(b.Buf), p2, len(s.Value)) && forall j in 0..len(s.Value) :: arrayof(b.Buf)[p2 + uvsize(len(s.Value)) + j] == s.Value[j] {Value}
+
+//@ contract (s *Setting) Decode(r) (err) props(C06,C07,C08,C17)
+//@   requires s != nil && r != nil
+//@   modifies *s, r.pos, r.failed, r.b.Buf
+//@   let n0 = i64(uvval(r.in, old(r.pos)))
+//@   let q1 = old(r.pos) + uvlen(r.in, old(r.pos)) + n0
+//@   let fl = uvval(r.in, q1)
+//@   let q2 = q1 + uvlen(r.in, q1)
+//@   let n2 = i64(uvval(r.in, q2))
+//@   let q3 = q2 + uvlen(r.in, q2) + n2
+//@   ensures err == nil && n0 == 0 ==> r.pos == q1 && s.Key == old(s.Key) && s.Value == old(s.Value) [C17] {empty-key-ends-the-list-and-leaves-the-setting-untouched}
+//@   ensures err == nil && n0 != 0 ==> len(s.Key) == n0 && forall j in 0..len(s.Key) :: s.Key[j] == r.in[old(r.pos) + uvlen(r.in, old(r.pos)) + j] [C17] {Key}
+//@   ensures err == nil && n0 != 0 ==> s.Important == (floormod(fl, 2) == 1) && s.Custom == (floormod(floordiv(fl, 2), 2) == 1) && s.Obsolete == (floormod(floordiv(fl, 4), 2) == 1) [C17] {flags}
+//@   ensures err == nil && n0 != 0 ==> len(s.Value) == n2 && forall j in 0..len(s.Value) :: s.Value[j] == r.in[q2 + uvlen(r.in, q2) + j] [C17] {Value}
+//@   ensures err == nil && n0 != 0 ==> r.pos == q3 [C07,C08,C17] {consumes-exactly}
+//@   ensures err == nil ==> r.pos <= r.end && r.failed == old(r.failed) [C07,C17]
+//@   ensures old(r.pos) <= r.pos && r.pos <= r.end [C06,C17] {monotone}
+//@   ensures r.reliable && !old(r.failed) && uvok(r.in, old(r.pos)) && 0 <= n0 && q1 <= r.end && (n0 != 0 ==> uvok(r.in, q1) && uvok(r.in, q2) && 0 <= n2 && q3 <= r.end) ==> err == nil [C17] {accepts-well-formed}
+
+//@ contract lemmaSettingRoundTrip(x) (y, r, err) props(C17)
+//@   requires 0 < len(x.Key) && len(x.Key) < 1152921504606846976 && len(x.Value) < 1152921504606846976
+//@   ensures err == nil {decodes}
+//@   ensures r.pos == r.end {consumes-exactly-the-encoded-bytes}
+//@   ensures y.Key == x.Key && y.Value == x.Value {strings}
+//@   ensures y.Important == x.Important && y.Custom == x.Custom && y.Obsolete == x.Obsolete {flags}
+
+//@ -- a parameter travels as a custom setting
+//@ contract (p Parameter) Encode(b) props(C17,C02)
+//@   requires b != nil
+//@   modifies b.Buf
+//@   let p0 = offset(b.Buf) + old(len(b.Buf))
+//@   let p1 = p0 + uvsize(len(p.Key)) + len(p.Key)
+//@   let p2 = p1 + 1
+//@   ensures appendOnly(b, uvsize(len(p.Key)) + len(p.Key) + 1 + uvsize(len(p.Value)) + len(p.Value)) {length}
+//@   ensures uvStable(b) {varint-images-preserved}
+//@   ensures uvAt(arrayof(b.Buf), p0, len(p.Key)) && forall j in 0..len(p.Key) :: arrayof(b.Buf)[p0 + uvsize(len(p.Key)) + j] == p.Key[j] {Key}
+//@   ensures arrayof(b.Buf)[p1] == 2 {custom-flag}
+//@   ensures uvAt(arrayof(b.Buf), p2, len(p.Value)) && forall j in 0..len(p.Value) :: arrayof(b.Buf)[p2 + uvsize(len(p.Value)) + j] == p.Value[j] {Value}
